@@ -26,6 +26,7 @@ import (
 	"os"
 	"path/filepath"
 	"sort"
+	"sync"
 	"strings"
 	"time"
 
@@ -39,7 +40,32 @@ const (
 	hostOther = "oth.test"
 )
 
-var hosts = []string{hostApp, hostOther}
+// Upstreams of the flow stream. Static routes are matched on the FULL Host header (hostmux), so
+// svcA and svcB are two different services with different rules although they differ only in the
+// port; the rewrite (regexp) route makes hosts routable that no static route would name: upper
+// case, trailing dot, an IPv6 literal with a port.
+const (
+	hostSvcA = "svc.test:8443"
+	hostSvcB = "svc.test:9443"
+	hostRwUp = "RW.TEST"
+	hostRwDt = "rw.test."
+	hostRw6  = "[::1]:8080"
+	rwRegex  = `^(RW\.TEST|rw\.test\.|rw\.test:7443|\[::1\]:8080)$`
+)
+
+var hosts = []string{hostApp, hostOther, hostSvcA, hostSvcB} // the static ones (stream ii models static routing)
+
+var flowHosts = []string{hostApp, hostApp, hostApp, hostOther, hostSvcA, hostSvcA, hostSvcB, hostSvcB, hostRwUp, hostRwDt, hostRw6, "rw.test:7443"}
+
+// emailValid is the upstream's rule as configured in main(): a domain rule or an address rule.
+func emailValid(host, email string) bool {
+	switch host {
+	case hostOther, hostSvcB:
+		return email == "vip@co.io"
+	default:
+		return strings.HasSuffix(email, "@ex.io")
+	}
+}
 
 // stateRec mirrors proxy.StateParameter's JSON (internal/proxy/oauthproxy.go:80-84).
 type stateRec struct {
@@ -263,11 +289,33 @@ type choice struct {
 
 func strp(s string) *string { return &s }
 
-func (w *world) flowCase(r *c.Rng, auth *c.FakeAuth, force string) (c.Case, error) {
+func (w *world) flowCase(r *c.Rng, auth *codeAuth, force string) (c.Case, error) {
 	x := newCtx()
-	host := hostApp
-	if r.Chance(0.15) {
-		host = hostOther
+	host := r.Pick(flowHosts)
+	// the callback may arrive under ANOTHER Host than the flow was started under (the CSRF cookie's
+	// domain has no port): the session must be bound to the callback's Host, port included
+	cbHost := host
+	if r.Chance(0.12) {
+		cbHost = r.Pick(flowHosts)
+	}
+	if force != "" {
+		host, cbHost = hostApp, hostApp
+		if strings.HasSuffix(force, "@port") {
+			force = strings.TrimSuffix(force, "@port")
+			host, cbHost = hostSvcA, hostSvcA
+		} else if strings.HasSuffix(force, "@cross-port") {
+			force = strings.TrimSuffix(force, "@cross-port")
+			host, cbHost = hostSvcA, hostSvcB
+		} else if strings.HasSuffix(force, "@ipv6") {
+			force = strings.TrimSuffix(force, "@ipv6")
+			host, cbHost = hostRw6, hostRw6
+		} else if strings.HasSuffix(force, "@upper") {
+			force = strings.TrimSuffix(force, "@upper")
+			host, cbHost = hostRwUp, hostRwUp
+		} else if strings.HasSuffix(force, "@dot") {
+			force = strings.TrimSuffix(force, "@dot")
+			host, cbHost = hostRwDt, hostRwDt
+		}
 	}
 	tA := r.Pick(startTargets)
 	tB := r.Pick(startTargets)
@@ -436,13 +484,11 @@ func (w *world) flowCase(r *c.Rng, auth *c.FakeAuth, force string) (c.Case, erro
 			redeem, redeemSym = okRedeem(email), "(RedeemOk "+c.Str(email)+")"
 		}
 	}
-	valid := false
-	if host == hostApp {
-		valid = strings.HasSuffix(email, "@ex.io")
-	} else {
-		valid = email == "vip@co.io"
+	valid := emailValid(cbHost, email)
+	if code != "" { // a code of its own for every case: the authenticator answers per code
+		code = fmt.Sprintf("code-%d", r.Intn(1000000))
 	}
-	auth.Set(c.AuthScript{Redeem: redeem})
+	auth.script(map[string]c.Answer{code: redeem})
 
 	q := url.Values{}
 	if code != "" {
@@ -478,18 +524,13 @@ func (w *world) flowCase(r *c.Rng, auth *c.FakeAuth, force string) (c.Case, erro
 	if ch.cookie != nil {
 		hdr["Cookie"] = w.csrfKey + "=" + *ch.cookie
 	}
-	req, err := rawRequest(method, target, host, hdr, body)
+	req, err := rawRequest(method, target, cbHost, hdr, body)
 	if err != nil {
 		return c.Case{}, err
 	}
 	rec := w.Do(req)
-	calls := auth.TakeCalls()
-	redeemCalled := false
-	for _, e := range calls {
-		if e == "redeem" {
-			redeemCalled = true
-		}
-	}
+	// the authenticator received a /redeem call carrying THIS callback's code
+	redeemCalled := code != "" && auth.redeemed(code)
 	eff, val := c.CookieEffect(rec, w.CookieName)
 	csrfEff, _ := c.CookieEffect(rec, w.csrfKey)
 	sessObs := "None"
@@ -550,16 +591,152 @@ func (w *world) flowCase(r *c.Rng, auth *c.FakeAuth, force string) (c.Case, erro
 		cookieCoq = "(Some " + ch.cw.coq() + ")"
 	}
 	reqCoq := fmt.Sprintf("{| cb_form_ok := %s; cb_error := %s; cb_code := %s; cb_state := %s; cb_cookie := %s; cb_host := %s; cb_redeem := %s; cb_valid := %s |}",
-		c.Bool(formOK), c.Str(errParam), c.Str(code), ch.sw.coq(), cookieCoq, c.Str(host), redeemSym, c.Bool(valid))
+		c.Bool(formOK), c.Str(errParam), c.Str(code), ch.sw.coq(), cookieCoq, c.Str(cbHost), redeemSym, c.Bool(valid))
 	obsCoq := fmt.Sprintf("{| fo_status := %d; fo_redeem_called := %s; fo_session := %s; fo_csrf_cleared := %s; fo_location := %s |}",
 		rec.Code, c.Bool(redeemCalled), sessObs, c.Bool(csrfEff == "cleared"), c.Str(location))
 	coq := fmt.Sprintf("CFlow %s %s %s %s %s %s %s", c.Bool(canon), c.Bool(w.strict), c.List(stf), c.List(iss), reqCoq, c.List(rt), obsCoq)
 	js := map[string]interface{}{
-		"kind": "flow", "presented": ch.tag, "host": host, "start_targets": []string{tA, tB}, "recorded": []string{A.rec.Redirect, B.rec.Redirect},
+		"kind": "flow", "presented": ch.tag, "host": cbHost, "started_under": host, "start_targets": []string{tA, tB}, "recorded": []string{A.rec.Redirect, B.rec.Redirect},
 		"code": code, "error": errParam, "form_ok": formOK, "redeem": redeemSym, "valid": valid, "post": post, "canonical_decoding": canon, "empty_record_refused": w.strict,
 		"obs": map[string]interface{}{"status": rec.Code, "redeem_called": redeemCalled, "session": sessJSON, "csrf_cleared": csrfEff == "cleared", "location": location},
 	}
 	return c.Case{Coq: coq, JSON: js}, nil
+}
+
+// concurrentGroup runs n callbacks that are IN FLIGHT AT ONCE: each has its own genuine flow
+// (own state and CSRF cookie) and its own code; the authenticator answers per code (distinct
+// e-mails; the last member of a group of three presents a code the authenticator does not know).
+// The first /redeem is held by the fake authenticator until the other callbacks' /redeem calls have
+// arrived, or — if they never arrive because the proxy merged them into the first — a short
+// timeout has passed.  Nothing in the judgement depends on who wins a race: on correct code every
+// callback reaches the authenticator with its own code whatever the timing.
+func (w *world) concurrentGroup(r *c.Rng, auth *codeAuth, n int, sameHost bool) ([]c.Case, error) {
+	type member struct {
+		x                  *ctx
+		host, code, email  string
+		redeem             c.Answer
+		redeemSym          string
+		fl                 *started
+		rec                *httptest.ResponseRecorder
+		target             string
+	}
+	base := r.Pick([]string{hostApp, hostSvcA, hostRw6, hostRwUp})
+	ms := make([]*member, n)
+	answers := map[string]c.Answer{}
+	for i := range ms {
+		m := &member{x: newCtx(), host: base}
+		if !sameHost && i > 0 {
+			m.host = r.Pick([]string{hostApp, hostSvcA, hostRwDt, hostRwUp})
+		}
+		m.target = r.Pick(startTargets)
+		fl, err := w.start(m.x, m.host, m.target)
+		if err != nil {
+			return nil, err
+		}
+		m.fl = fl
+		m.code = fmt.Sprintf("code-%d-%d", i, r.Intn(1000000))
+		m.email = fmt.Sprintf("u%d@ex.io", i+1)
+		if n >= 3 && i == n-1 { // a code the authenticator never issued
+			m.code = fmt.Sprintf("no-such-code-%d", r.Intn(1000000))
+			m.redeem, m.redeemSym = c.Answer{Status: 400, Body: `{"error":"invalid_grant"}`}, "RedeemErr"
+		} else {
+			m.redeem, m.redeemSym = okRedeem(m.email), "(RedeemOk "+c.Str(m.email)+")"
+		}
+		answers[m.code] = m.redeem
+		ms[i] = m
+	}
+	auth.scriptHeld(answers, n)
+	var wg sync.WaitGroup
+	run := func(m *member) {
+		defer wg.Done()
+		req, err := rawRequest("GET", "/oauth2/callback?code="+url.QueryEscape(m.code)+"&state="+url.QueryEscape(m.fl.state), m.host,
+			map[string]string{"Cookie": w.csrfKey + "=" + m.fl.cookie}, "")
+		if err != nil {
+			return
+		}
+		m.rec = w.Do(req)
+	}
+	wg.Add(1)
+	go run(ms[0])
+	auth.waitArrivals(1, 10*time.Second) // the first redemption is now in flight (held)
+	for _, m := range ms[1:] {
+		wg.Add(1)
+		go run(m)
+	}
+	auth.waitArrivals(n-1, 400*time.Millisecond)
+	auth.releaseHeld()
+	wg.Wait()
+	log := auth.callLog()
+	var out []c.Case
+	for i, m := range ms {
+		if m.rec == nil {
+			return nil, fmt.Errorf("concurrent callback %d did not run", i)
+		}
+		f := m.fl.rec
+		ob := w.observe(m.rec)
+		redeemCalled := auth.redeemed(m.code)
+		rt := []string{c.Pair(c.Str(""), c.Str(goRedirect(""))), c.Pair(c.Str(f.Redirect), c.Str(goRedirect(f.Redirect)))}
+		reqCoq := fmt.Sprintf("{| cb_form_ok := true; cb_error := []; cb_code := %s; cb_state := %s; cb_cookie := (Some %s); cb_host := %s; cb_redeem := %s; cb_valid := %s |}",
+			c.Str(m.code), wire{Sealed: m.fl.stateSym}.coq(), wire{Sealed: m.fl.cookSym}.coq(), c.Str(m.host), m.redeemSym, c.Bool(emailValid(m.host, m.email)))
+		obsCoq := fmt.Sprintf("{| fo_status := %d; fo_redeem_called := %s; fo_session := %s; fo_csrf_cleared := %s; fo_location := %s |}",
+			ob.status, c.Bool(redeemCalled), ob.sessCoq, c.Bool(ob.csrfCleared), c.Str(ob.location))
+		// canonical decoding plays no part here (own, canonical values): pass what the probe says
+		canon := true
+		if v, ok := respell(m.fl.cookie, 1); ok && w.opens(v) {
+			canon = false
+		}
+		coq := fmt.Sprintf("CFlow %s %s %s %s %s %s %s", c.Bool(canon), c.Bool(w.strict), c.List([]string{f.coq()}),
+			c.List([]string{m.fl.cookSym.coq(), m.fl.stateSym.coq()}), reqCoq, c.List(rt), obsCoq)
+		var seen []string // which members' codes reached the authenticator, in order, and how it answered
+		for _, cl := range log {
+			who := "other"
+			for j, mj := range ms {
+				if mj.code == cl.Code {
+					who = fmt.Sprintf("member%d", j)
+				}
+			}
+			seen = append(seen, fmt.Sprintf("%s->%d", who, cl.Status))
+		}
+		sort.Strings(seen) // arrival order is a race, not an observable
+		js := map[string]interface{}{
+			"kind": "flow", "presented": "own-concurrent", "group_size": n, "member": i, "same_host": sameHost, "host": m.host, "start_target": m.target,
+			"recorded": f.Redirect, "redeem": m.redeemSym, "authenticator_saw": seen, "canonical_decoding": canon, "empty_record_refused": w.strict,
+			"obs": map[string]interface{}{"status": ob.status, "redeem_called_with_own_code": redeemCalled, "session": ob.sessJSON, "csrf_cleared": ob.csrfCleared, "location": ob.location},
+		}
+		out = append(out, c.Case{Coq: coq, JSON: js})
+	}
+	return out, nil
+}
+
+type flowObs struct {
+	status      int
+	sessCoq     string
+	sessJSON    interface{}
+	csrfCleared bool
+	location    string
+}
+
+// observe projects a callback response: status, the session cookie re-opened with the known secret
+// (e-mail and AuthorizedUpstream, byte for byte), whether the CSRF cookie was cleared, Location.
+func (w *world) observe(rec *httptest.ResponseRecorder) flowObs {
+	o := flowObs{status: rec.Code, sessCoq: "None", location: rec.Header().Get("Location")}
+	eff, val := c.CookieEffect(rec, w.CookieName)
+	csrfEff, _ := c.CookieEffect(rec, w.csrfKey)
+	o.csrfCleared = csrfEff == "cleared"
+	if eff == "set" {
+		s := w.Open(val)
+		if s == nil {
+			o.sessCoq = "(Some {| s_email := [0]; s_upstream := [0] |})" // set but does not open: never equal to a prediction
+			o.sessJSON = "unopenable"
+		} else {
+			sr := sessRec{Email: s.Email, Upstream: s.AuthorizedUpstream}
+			o.sessCoq = "(Some " + sr.coq() + ")"
+			o.sessJSON = sr
+		}
+	} else if eff == "cleared" {
+		o.sessJSON = "cleared"
+	}
+	return o
 }
 
 var startTargets = []string{
@@ -710,16 +887,21 @@ func readCorpus(dir string) (targets []string, flows []string) {
 func main() {
 	a := c.ParseArgs()
 	c.Quiet()
+	log.SetOutput(ioutil.Discard) // net/http's remarks (e.g. about an IPv6 cookie domain) are not observations
 	r := c.NewRng(a.Seed)
 	dir := c.Scratch(a.Out)
 	defer os.RemoveAll(dir)
-	auth := c.NewFakeAuth()
+	auth := newCodeAuth()
 	defer auth.Srv.Close()
 	backend := c.NewBackend("b")
 	defer backend.Srv.Close()
 	yaml := "- service: app\n  default:\n    from: " + hostApp + "\n    to: " + backend.HostPort() + "\n    options:\n      allowed_email_domains: [\"ex.io\"]\n" +
-		"- service: other\n  default:\n    from: " + hostOther + "\n    to: " + backend.HostPort() + "\n    options:\n      allowed_email_addresses: [\"vip@co.io\"]\n"
-	pw, err := c.BuildProxy(c.ProxyOpts{YAML: yaml, Valid: time.Hour, Dir: dir}, auth)
+		"- service: other\n  default:\n    from: " + hostOther + "\n    to: " + backend.HostPort() + "\n    options:\n      allowed_email_addresses: [\"vip@co.io\"]\n" +
+		"- service: svca\n  default:\n    from: " + hostSvcA + "\n    to: " + backend.HostPort() + "\n    options:\n      allowed_email_domains: [\"ex.io\"]\n" +
+		"- service: svcb\n  default:\n    from: " + hostSvcB + "\n    to: " + backend.HostPort() + "\n    options:\n      allowed_email_addresses: [\"vip@co.io\"]\n" +
+		"- service: rw\n  default:\n    from: '" + rwRegex + "'\n    to: " + backend.HostPort() + "\n    type: rewrite\n    options:\n      allowed_email_domains: [\"ex.io\"]\n"
+	// BuildProxy only needs the authenticator's address
+	pw, err := c.BuildProxy(c.ProxyOpts{YAML: yaml, Valid: time.Hour, Dir: dir}, &c.FakeAuth{Srv: auth.Srv})
 	c.Must(err)
 	other, err := aead.NewMiscreantCipher(c.OtherSecret)
 	c.Must(err)
@@ -731,7 +913,7 @@ func main() {
 	w.addr = strings.TrimPrefix(w.srv.URL, "http://")
 
 	// two ordinary logins: the sealed sessions they yield are "values this proxy sealed"
-	auth.Set(c.AuthScript{Redeem: okRedeem("u@ex.io")})
+	auth.script(map[string]c.Answer{"abc": okRedeem("u@ex.io")})
 	for i := 0; i < 2; i++ {
 		x := newCtx()
 		st, err := w.start(x, hostApp, "/")
@@ -757,14 +939,14 @@ func main() {
 		eff, _ := c.CookieEffect(rec, w.CookieName)
 		w.strict = rec.Code == http.StatusBadRequest && eff != "set"
 	}
-	auth.TakeCalls()
 
 	var cases []c.Case
 	corpusTargets, corpusFlows := readCorpus(a.Corpus)
 	// hand-written flow cases first: the witnesses of the known findings among them
 	for _, tag := range append([]string{"own", "swapped", "cross", "equal-state", "equal-cookie", "no-cookie", "no-state",
 		"respelled-cookie-as-state", "respelled-state", "sessions", "session-equal", "session-state", "session-cookie",
-		"other-key-state", "other-key-cookie", "forged-redirect", "bitflip-state", "bitflip-cookie", "truncated", "junk-cookie"}, corpusFlows...) {
+		"other-key-state", "other-key-cookie", "forged-redirect", "bitflip-state", "bitflip-cookie", "truncated", "junk-cookie",
+		"own@port", "own@cross-port", "own@ipv6", "own@upper", "own@dot", "swapped@port", "cross@port"}, corpusFlows...) {
 		cs, err := w.flowCase(r, auth, tag)
 		if err != nil {
 			// a respelling by trailing bits exists only for some lengths; retry a few flows
@@ -789,6 +971,14 @@ func main() {
 	for _, t := range []string{"/", "/x", "//evil.com", "http://" + hostApp + "/x", "/ping"} {
 		cases = append(cases, w.targetCase(hostOther, t))
 		cases = append(cases, w.targetCase("unknown.test", t))
+	}
+	// callbacks in flight at once: pairs and triples, on one host and on different hosts
+	nGroups := 6 + a.N/100
+	for i := 0; i < nGroups; i++ {
+		n := 2 + i%2
+		cs, err := w.concurrentGroup(r, auth, n, i%4 != 3)
+		c.Must(err)
+		cases = append(cases, cs...)
 	}
 	nFlow := a.N * 2 / 5
 	for i := 0; i < nFlow; i++ {
